@@ -19,6 +19,7 @@ Seeds(c) ==
     [] c = "VCOLL" -> {<<<<<<1, 2>>, <<4, 6>>>>>>, <<<<<<3, 4>>>>>>}
     [] c = "COLL" -> {<<-1, -1, 1>>, <<0, 20, 2>>}
     [] c = "PARENT" -> {<<5, 8, "", "+">>, <<5, -1, "+", "+">>}
+    [] c = "CODON" -> {<<<<"G", "C", "A">>>>, <<<<"a", "t", "g">>>>, <<<<"N", "R", "y">>>>}
 Init == cls \in Classes /\ args \in Seeds(cls) /\ kind = "none" /\ phase = "seed"
 DoCorrupt(k) == /\ phase = "seed" /\ Corrupt(cls, args, k) # args
                 /\ args' = Corrupt(cls, args, k) /\ kind' = k /\ phase' = "corrupted" /\ UNCHANGED cls
